@@ -288,6 +288,7 @@ def run(chk, prog, tier):
     model = build_model()
     chk.guard('signer schemes', c12.check_sign_agreement, chk, prog, env, model)
     chk.guard('verifier schemes', c01.check_gate, chk, prog, env, model)
+    c12.check_verifier_support(chk, prog, 'C05.verifier-support')
     chk.guard('openssl ecdsa layout', check_openssl_ecdsa, chk, prog, env, model)
     chk.guard('gnutls ecdsa layout', check_gnutls_ecdsa, chk, prog, env, model)
     chk.guard('token assembly', c10.check_assembly, chk, prog, env, model)
